@@ -9,7 +9,9 @@ import (
 	listener "github.com/envoyproxy/go-control-plane/envoy/config/listener/v3"
 	rbacpb "github.com/envoyproxy/go-control-plane/envoy/config/rbac/v3"
 	routepb "github.com/envoyproxy/go-control-plane/envoy/config/route/v3"
+	extauthzhttp "github.com/envoyproxy/go-control-plane/envoy/extensions/filters/http/ext_authz/v3"
 	rbachttp "github.com/envoyproxy/go-control-plane/envoy/extensions/filters/http/rbac/v3"
+	extauthztcp "github.com/envoyproxy/go-control-plane/envoy/extensions/filters/network/ext_authz/v3"
 	hcm "github.com/envoyproxy/go-control-plane/envoy/extensions/filters/network/http_connection_manager/v3"
 	rbactcp "github.com/envoyproxy/go-control-plane/envoy/extensions/filters/network/rbac/v3"
 	uritemplate "github.com/envoyproxy/go-control-plane/envoy/extensions/path/match/uri_template/v3"
@@ -27,11 +29,20 @@ type builtFilter struct {
 	shadowPrefix string
 	statPrefix   string
 	other        string // anything the canonical form does not cover (must stay empty)
+	// ext_authz filter of the CUSTOM action: only the metadata matcher that enables it is compared
+	extAuthz *matcherpb.MetadataMatcher
 }
 
 func fromHTTP(f *hcm.HttpFilter) *builtFilter {
 	b := &builtFilter{name: f.GetName()}
 	cfg := &rbachttp.RBAC{}
+	if ea := (&extauthzhttp.ExtAuthz{}); f.GetTypedConfig().UnmarshalTo(ea) == nil {
+		b.extAuthz = ea.GetFilterEnabledMetadata()
+		if b.extAuthz == nil {
+			b.other = "ext-authz-without-enabling-metadata"
+		}
+		return b
+	}
 	if err := f.GetTypedConfig().UnmarshalTo(cfg); err != nil {
 		b.other = "not-http-rbac:" + f.GetTypedConfig().GetTypeUrl()
 		return b
@@ -51,6 +62,13 @@ func fromHTTP(f *hcm.HttpFilter) *builtFilter {
 func fromTCP(f *listener.Filter) *builtFilter {
 	b := &builtFilter{name: f.GetName()}
 	cfg := &rbactcp.RBAC{}
+	if ea := (&extauthztcp.ExtAuthz{}); f.GetTypedConfig().UnmarshalTo(ea) == nil {
+		b.extAuthz = ea.GetFilterEnabledMetadata()
+		if b.extAuthz == nil {
+			b.other = "ext-authz-without-enabling-metadata"
+		}
+		return b
+	}
 	if err := f.GetTypedConfig().UnmarshalTo(cfg); err != nil {
 		b.other = "not-tcp-rbac:" + f.GetTypedConfig().GetTypeUrl()
 		return b
@@ -73,6 +91,9 @@ func canonFilters(fs []*builtFilter) string {
 }
 
 func canonFilter(f *builtFilter) string {
+	if f.extAuthz != nil {
+		return "(extauthz " + wire.Enc(f.name) + " enabled=" + canonMeta(f.extAuthz) + ")"
+	}
 	s := fmt.Sprintf("(filter %s rules=%s shadow=%s sprefix=%s stat=%s", wire.Enc(f.name), canonRBAC(f.rules), canonRBAC(f.shadow),
 		wire.Enc(f.shadowPrefix), wire.Enc(f.statPrefix))
 	if f.other != "" {
